@@ -102,7 +102,9 @@ func runC17(t *testing.T, rng *rand.Rand, rec *sim.Rec, tier string, caseNo int)
 	secret := pick(rng, []string{"s3cret", "", "a much longer shared secret with spaces", "ключ", string([]byte{0, 1, 2, 255})})
 	user := pick(rng, []string{"alice", "", "bob:extra", "user with space", "1700000000", "50%off", "%s%d%v", "a%"})
 	realm := pick(rng, []string{"verif.test", "", "пример", "re%alm", "100%25"})
-	dur := pick(rng, []time.Duration{-time.Hour, -time.Second, 0, time.Second, 5 * time.Second, time.Minute, 24 * time.Hour})
+	dur := pick(rng, []time.Duration{-time.Hour, -time.Second, 0, time.Second, 5 * time.Second, time.Minute, 24 * time.Hour,
+		// durations with a sub-second part: the stamp is the second in which now+duration falls
+		1900 * time.Millisecond, 500 * time.Millisecond, -500 * time.Millisecond, 2500 * time.Millisecond, 999 * time.Millisecond, 61*time.Second + time.Millisecond})
 	handler := kind.handler(secret)
 	username, password, err := kind.gen(secret, user, dur)
 	if err != nil {
